@@ -41,3 +41,10 @@ Section WithOps.
     | _ => sErr
     end.
 End WithOps.
+
+(** Entry point "exit_status": a list of event numbers -> status *)
+From VD Require Import Model.Exit.
+Definition xev_of (z : Z) : xev :=
+  if z =? 0 then XConnFailed else if z =? 1 then XCompleted else if z =? 2 then XLostClean
+  else if z =? 3 then XLostError else if z =? 4 then XTimeout else XStop.
+Definition d_exit_status (a : sexp) : sexp := I (exit_status (map xev_of (as_Zs a))).
